@@ -620,6 +620,90 @@ fn main() {
             };
             std::fs::write(path, line + "\n").unwrap();
         }
+        "droprace-check" => {
+            // real-thread race between the end of a cancelled interaction's closure and the drop
+            // of the wrapper: the closure is released just before the wrapper goes away, with a
+            // swept delay in between; wherever the closure's end falls, the wrapped value's
+            // destructor must run on a thread of the blocking pool, never on the dropping thread
+            let path = get("--out").expect("--out");
+            let trials: usize = get("--trials").and_then(|v| v.parse().ok()).unwrap_or(30000);
+            struct Rec(Arc<Mutex<Option<std::thread::ThreadId>>>);
+            impl Drop for Rec {
+                fn drop(&mut self) {
+                    *self.0.lock().unwrap() = Some(std::thread::current().id());
+                }
+            }
+            let rt = tokio::runtime::Builder::new_multi_thread().worker_threads(2).enable_all().build().unwrap();
+            let (mut on_dropper, mut never, mut first) = (0usize, 0usize, None);
+            rt.block_on(async {
+                use std::sync::atomic::{AtomicBool, Ordering::SeqCst};
+                let me = std::thread::current().id();
+                for t in 0..trials {
+                    let slot: Arc<Mutex<Option<std::thread::ThreadId>>> = Arc::default();
+                    let s2 = slot.clone();
+                    let w = match SyncWrapper::new(Runtime::Tokio1, move || Ok::<_, ()>(Rec(s2))).await {
+                        Ok(w) => w,
+                        Err(_) => {
+                            never += 1;
+                            continue;
+                        }
+                    };
+                    let (started, release) = (Arc::new(AtomicBool::new(false)), Arc::new(AtomicBool::new(false)));
+                    let (st, re) = (started.clone(), release.clone());
+                    let mut fut = Box::pin(w.interact(move |_| {
+                        st.store(true, SeqCst);
+                        while !re.load(SeqCst) {
+                            std::hint::spin_loop();
+                        }
+                    }));
+                    std::future::poll_fn(|cx| {
+                        let _ = fut.as_mut().poll(cx);
+                        Poll::Ready(())
+                    })
+                    .await;
+                    let t0 = Instant::now();
+                    while !started.load(SeqCst) && t0.elapsed() < Duration::from_secs(5) {
+                        std::thread::yield_now();
+                    }
+                    drop(fut); // cancelled while its closure runs
+                    release.store(true, SeqCst);
+                    for _ in 0..(t % 64) * 4 {
+                        std::hint::spin_loop();
+                    }
+                    drop(w);
+                    let t0 = Instant::now();
+                    let ran_on = loop {
+                        if let Some(id) = *slot.lock().unwrap() {
+                            break Some(id);
+                        }
+                        if t0.elapsed() > Duration::from_secs(5) {
+                            break None;
+                        }
+                        std::thread::yield_now();
+                    };
+                    match ran_on {
+                        None => never += 1,
+                        Some(id) if id == me => {
+                            on_dropper += 1;
+                            first.get_or_insert(t);
+                        }
+                        Some(_) => {}
+                    }
+                }
+            });
+            std::fs::write(
+                path,
+                format!(
+                    "droprace trials={} destructor_on_dropping_thread={} never_destroyed={} first={} ok={}\n",
+                    trials,
+                    on_dropper,
+                    never,
+                    first.map(|t| t.to_string()).unwrap_or("-".into()),
+                    (on_dropper == 0 && never == 0) as u8
+                ),
+            )
+            .unwrap();
+        }
         "replay" => {
             let inp = std::fs::read_to_string(get("--in").expect("--in")).unwrap();
             let mut out = std::io::BufWriter::new(std::fs::File::create(get("--out").expect("--out")).unwrap());
